@@ -11,24 +11,22 @@ import (
 	"os"
 	"os/exec"
 	"path/filepath"
-	"sort"
 	"strconv"
 	"strings"
 	"syscall"
 	"testing"
 	"time"
 
-	it "golang.org/x/telemetry/internal/telemetry"
-	"golang.org/x/telemetry/internal/verif/vhook"
 	"golang.org/x/telemetry/internal/verif/vsnap"
 	"golang.org/x/telemetry/internal/verif/vstats"
 	"pgregory.net/rapid"
 )
 
 type c16Cfg struct {
-	Dir    string
-	Crash  bool
-	Upload bool
+	Dir       string
+	Crash     bool
+	Upload    bool
+	StartDays int // Config.UploadStartTime = now + StartDays days (0: not set)
 }
 
 // Every start of this binary under a C16 row appends a line to the process log;
@@ -48,7 +46,12 @@ func init() {
 	}
 	var cfg c16Cfg
 	json.Unmarshal([]byte(os.Getenv("VERIF_C16_CFG")), &cfg)
-	Start(Config{TelemetryDir: cfg.Dir, ReportCrashes: cfg.Crash, Upload: cfg.Upload, UploadURL: "http://127.0.0.1:1/upload"})
+	c := Config{TelemetryDir: cfg.Dir, ReportCrashes: cfg.Crash, Upload: cfg.Upload, UploadURL: "http://127.0.0.1:1/upload"}
+	if cfg.StartDays != 0 {
+		// the documented way to simulate an upload at another time; it must not change who may start a sidecar
+		c.UploadStartTime = time.Now().AddDate(0, 0, cfg.StartDays)
+	}
+	Start(c)
 	// Record which processes this one has spawned (harness-level observation through /proc,
 	// independent of when the child gets to write its own log line).
 	if f, err := os.OpenFile(logPath, os.O_WRONLY|os.O_APPEND, 0666); err == nil {
@@ -83,6 +86,7 @@ type c16Row struct {
 	Token  string // absent, fresh, stale
 	Dir    string // ok, uncreatable
 	Text   int    // which spelling of the mode file (see c16ModeTexts); 0 = the plain one
+	Start  int    // Config.UploadStartTime in days from now (0: not set)
 }
 
 // c16ModeTexts: spellings of a mode file that all read as the same mode (the mode is the first word;
@@ -101,7 +105,7 @@ func (r c16Row) modeText() string {
 }
 
 func (r c16Row) String() string {
-	return fmt.Sprintf("marker=%s crash=%v upload=%v mode=%s(%q) token=%s dir=%s", r.Marker, r.Crash, r.Upload, r.Mode, r.modeText(), r.Token, r.Dir)
+	return fmt.Sprintf("marker=%s crash=%v upload=%v mode=%s(%q) token=%s dir=%s uploadStart=%+dd", r.Marker, r.Crash, r.Upload, r.Mode, r.modeText(), r.Token, r.Dir, r.Start)
 }
 
 // c16Model: how many children the row must launch, and with which upload flag.
@@ -194,7 +198,7 @@ func c16RunRow(t c16Fataler, base, exe string, r c16Row) {
 		}
 	}
 	logPath := filepath.Join(root, "proc.log")
-	cfgJSON, _ := json.Marshal(c16Cfg{Dir: tdir, Crash: r.Crash, Upload: r.Upload})
+	cfgJSON, _ := json.Marshal(c16Cfg{Dir: tdir, Crash: r.Crash, Upload: r.Upload, StartDays: r.Start})
 	before := vsnap.Take(tdir)
 	cmd := exec.Command(exe)
 	env := []string{}
@@ -312,11 +316,16 @@ func c16AllRows() []c16Row {
 				for _, mode := range []string{"on", "local", "off", "garbage", "missing"} {
 					for _, tok := range []string{"absent", "fresh", "stale"} {
 						for v := 0; v < max(1, len(c16ModeTexts[mode])); v++ {
-							rows = append(rows, c16Row{m, crash, up, mode, tok, "ok", v})
+							for _, st := range []int{0, 3, -3} {
+								if st != 0 && (!up || v != 0) {
+									continue // the start time only matters to upload-enabled starts
+								}
+								rows = append(rows, c16Row{m, crash, up, mode, tok, "ok", v, st})
+							}
 						}
 					}
 				}
-				rows = append(rows, c16Row{m, crash, up, "missing", "absent", "uncreatable", 0})
+				rows = append(rows, c16Row{m, crash, up, "missing", "absent", "uncreatable", 0, 0})
 			}
 		}
 	}
@@ -384,85 +393,4 @@ func TestVerifC16Table(t *testing.T) {
 		vstats.Case(r.String(), true, fmt.Sprintf("launch:%v", launch), "table")
 	}
 	vstats.Note("table_rows_total", int64(len(c16AllRows())))
-}
-
-// TestVerifC16TokenRace: 2-5 starters race for the upload token; their
-// file-system calls are interleaved by the generated schedule (rewritten copy
-// of start.go).
-func TestVerifC16TokenRace(t *testing.T) {
-	defer vstats.Flush()
-	base := t.TempDir()
-	saved := it.Default
-	defer func() { it.Default = saved }()
-	n := 0
-	rapid.Check(t, func(t *rapid.T) {
-		n++
-		dir := filepath.Join(base, strconv.Itoa(n))
-		defer os.RemoveAll(dir)
-		it.Default = it.NewDir(dir)
-		os.MkdirAll(it.Default.LocalDir(), 0777)
-		initial := rapid.SampledFrom([]string{"absent", "absent", "fresh"}).Draw(t, "initialToken")
-		if initial == "fresh" {
-			os.WriteFile(filepath.Join(it.Default.LocalDir(), "upload.token"), nil, 0666)
-		}
-		k := rapid.IntRange(2, 5).Draw(t, "starters")
-		ctl := vhook.New()
-		ctl.KeepLog = true
-		got := make([]bool, k)
-		for i := 0; i < k; i++ {
-			i := i
-			ctl.Go(fmt.Sprintf("starter%d", i), func() { got[i] = acquireUploadToken() })
-		}
-		ctl.Install()
-		defer vhook.Uninstall()
-		var sched []int
-		for steps := 0; ctl.Live() > 0; steps++ {
-			run := ctl.Runnable()
-			if len(run) == 0 {
-				t.Fatalf("deadlock among token starters")
-			}
-			if steps > 1000 {
-				t.Fatalf("token acquisition does not terminate")
-			}
-			th := run[rapid.IntRange(0, len(run)-1).Draw(t, "thread")]
-			sched = append(sched, th.ID)
-			ctl.Step(th)
-			if th.Panic != nil {
-				t.Fatalf("starter panicked: %v\n%s", th.Panic, th.Stack)
-			}
-		}
-		vhook.Uninstall()
-		acquired := 0
-		for _, g := range got {
-			if g {
-				acquired++
-			}
-		}
-		want := 1
-		if initial == "fresh" {
-			want = 0
-		}
-		if acquired > 1 || acquired != want {
-			t.Fatalf("initial token %s, %d starters, schedule %v: %d acquisitions, want %d", initial, k, sched, acquired, want)
-		}
-		// interleaved = some starter ran between another starter's first and last step
-		inter := false
-		first, last := map[int]int{}, map[int]int{}
-		for i, id := range sched {
-			if _, ok := first[id]; !ok {
-				first[id] = i
-			}
-			last[id] = i
-		}
-		for a := range first {
-			for i := first[a]; i <= last[a]; i++ {
-				if sched[i] != a {
-					inter = true
-				}
-			}
-		}
-		ids := append([]int(nil), sched...)
-		sort.Ints(ids)
-		vstats.Case(fmt.Sprintf("initial=%s starters=%d schedule=%v", initial, k, sched), inter, fmt.Sprintf("interleaved:%v", inter), "initial:"+initial)
-	})
 }
